@@ -3,9 +3,9 @@ import CashewsVerif.Lemmas.TxFaultBody
 C16: the lock bookkeeping.  Through the body every lock entry carrying this transaction's token is remembered
 in the `_locks` of some wrapped backend (`LockInv`); on the way out every wrapped backend gets its
 `_unlock_updates` run, whatever fails (`Covered` shrinks to the empty list), so what is left of this
-transaction's locks are exactly those whose own `unlock` command was made to fail (`FU`) — with ONE exception, which
-is a fact of the code at /repo: `Transaction._rollback` catches `Exception` only, so an `unlock` that ends with a
-BaseException (cancellation) takes the task out of the loop and the wrappers after it are never unlocked (`BU`).
+transaction's locks are exactly those whose own `unlock` command was made to fail (`FU`).  The OLD loop of
+`Transaction._rollback` (`cfg.rbAll = false`, before 12f0cbb) caught `Exception` only, so an `unlock` that ended with a
+BaseException (cancellation) took the task out of the loop and the wrappers after it were never unlocked (`BU`).
 -/
 namespace CashewsVerif.TxFault
 
@@ -331,7 +331,7 @@ theorem mem_unlockOrder (uprio : List (Nat × Nat)) (b : Nat) (ls : List Nat) (l
   · exact Or.inl hp
   · exact Or.inr ⟨h, by simpa using hp⟩
 
-/-- the loop of `_rollback` is the one of /repo (`except Exception` only) and some `unlock` command issued in this run
+/-- the loop of `_rollback` is the OLD one (`except Exception` only) and some `unlock` command issued in this run
 (index ≥ `c0`) was made to fail with an exception of BaseException kind -/
 def BU (cfg : Cfg) (c0 : Nat) (w : FWorld) : Prop :=
   cfg.rbAll = false ∧ ∃ i b' lk', c0 ≤ i ∧ i < w.counter ∧ cfg.fails i = true ∧ cfg.base i = true ∧
